@@ -27,6 +27,8 @@ def _judge(rep, pid, path, shards, label):
 
 
 def _norm_note(note):
+    if note.startswith("ABSTRACT-"):
+        return "abstract-scenario"
     # class of a scenario: strip concrete values
     parts = [re.sub(r"=.*", "", p.strip()) for p in note.split("&")]
     parts = [re.sub(r"^(reqhdr|resphdr|cc|cc-multi|vurl|status|lifetime|t|method)( harmless)?\b.*", r"\1\2", p) for p in parts]
@@ -181,6 +183,11 @@ def _mc_sxg_cfgs(tier):
     return [("attacker", "SPECIFICATION Spec\nCONSTANTS\n MaxMoves = %d\nINVARIANTS Authentic NoForgery MsgInjectiveOnce\nVIEW View\nCHECK_DEADLOCK FALSE\n" % (3 if tier == "quick" else 4))]
 
 
+def _ndev(o):
+    base = {"t": "mid", "life": 3600, "method": "GET", "reqhdr": "none", "resphdr": "none", "cc": [], "ccform": "one", "expireshdr": False, "status": 200, "vurl": "same", "ct": True, "integ": "right"}
+    return sum(1 for k, v in base.items() if o["s"][k] != v)
+
+
 def check_c09(tier):
     rep = Report("C09", tier)
     rep.cov["rule"] = ("scenario grid built as real signed exchanges: per version a baseline x every single deviation (8 instants around date/expires incl. +-1 ns, "
@@ -189,14 +196,38 @@ def check_c09(tier):
                        "variants, Content-Type, integrity id), the same on a not-cacheable-by-default status, sampled pairs and 3..5-way combinations; the real "
                        "Verify verdict must EQUAL Accept(x, t) evaluated by TLC from the exchange bytes, in both directions. distinct_nontrivial = distinct "
                        "(version, scenario class, verdict)")
-    if os.path.exists(os.path.join(vlib.TLA, "MC_SxgPolicy.tla")):
-        r = tlc("MC_SxgPolicy", "SPECIFICATION Spec\nINVARIANTS PolicyMonotone\nCHECK_DEADLOCK FALSE\n", "C09/mc", timeout=3000)
-        rep.add_tlc("MC_SxgPolicy", r)
+    r = tlc("MC_SxgPolicy", "SPECIFICATION Spec\nINVARIANTS Design\nCHECK_DEADLOCK FALSE\n", "C09/mc", timeout=3000)
+    rep.add_tlc("MC_SxgPolicy", r)
+    scns = [o for t, o in r.lines]
+    if tier == "quick":      # all single deviations, every 4th pair
+        scns = [o for i, o in enumerate(sorted(scns, key=lambda x: json.dumps(x, sort_keys=True))) if _ndev(o) <= 1 or (i + vlib.seed()) % 4 == 0]
     wd = workdir("C09")
     p = os.path.join(wd, "pol.ndjson")
     vh_to_file(["sxg-pol", tier], p, timeout=3000)
+    sp_ = os.path.join(wd, "scn.txt")
+    with open(sp_, "w") as f:
+        for o in scns:
+            f.write(json.dumps(o) + "\n")
+    p2 = os.path.join(wd, "scn.ndjson")
+    vh_to_file(["sxg-scn"], p2, stdin_path=sp_, timeout=3000)
+    with open(p, "a") as f:
+        f.write(open(p2).read())
     cases, rejects = _judge(rep, "C09", p, 16, "pol")
     _ver_violations(rep, cases, rejects, "pol")
+    # third verdict: the abstract policy model must agree with the real code on its own scenarios
+    nabs = 0
+    for c in cases.values():
+        if c["note"].startswith("ABSTRACT-"):
+            nabs += 1
+            want = c["note"].startswith("ABSTRACT-OK")
+            if want != c["ok"]:
+                scn = json.loads(c["note"].split(" ", 1)[1])["s"]
+                dev = {k: v for k, v in scn.items() if k != "ver" and v != {"t": "mid", "life": 3600, "method": "GET", "reqhdr": "none", "resphdr": "none", "cc": [], "ccform": "one",
+                                                                         "expireshdr": False, "status": 200, "vurl": "same", "ct": True, "integ": "right"}[k]}
+                rep.violation("pol:abstract:%s:%s:%s" % (scn["ver"], "accepts" if c["ok"] else "rejects", ",".join(sorted(dev))),
+                              "Verify %s a %s exchange with deviations %s, the policy model says %s" % ("accepts" if c["ok"] else "rejects", scn["ver"], dev, "accept" if want else "reject"),
+                              {"component": "sxgpol", "scenario": scn, "real": c["ok"], "model": want})
+    rep.add("abstract_scenarios", enumerated=len(r.lines), executed=nabs)
     rep.cov["distinct_nontrivial"] = len(set((c["x"]["ver"], _norm_note(c["note"]), c["ok"]) for c in cases.values()))
     acc = sum(1 for c in cases.values() if c["ok"])
     rep.add("grid", scenarios=len(cases), accepted=acc, rejected=len(cases) - acc)
